@@ -64,6 +64,36 @@ def wire_roundtrip(ck, tier, families=('store', 'concat', 'get', 'counter')):
             evict = [e for e in p.events if e[0] in ('map.iter', 'rng')]
             if policy:
                 ck.obligation(f'{tag}: no eviction below the limit', pc, z3.BoolVal(not evict), {}, on_w, small)
+            # every key the handler hands to the store is exactly the frame's key bytes: offset 24 + extras_length, key_length long
+            if v not in ('Flush', 'FlushQuietly'):
+                kok = []
+                for kv in x.keys_seen:
+                    if isinstance(kv, Buf) and kv.base.eq(WIRE):
+                        kok.append(z3.And(kv.off == 24 + H.ext64, kv.len == H.key64))
+                    else:
+                        kok.append(z3.BoolVal(False))
+                def on_key(m, where):
+                    # independent of the store: what the real decoder reports as the request's key (Debug output of the request)
+                    import re, ast
+                    n = mval(m, HC.total)
+                    data = wire_bytes(m, n)
+                    el, kl = mval(m, H.extlen), mval(m, H.keylen)
+                    want = data[24 + el:24 + el + kl]
+                    sc = {'kind': 'decode', 'item_limit': mval(m, HC.limit), 'chunks': [data.hex()], 'loop': False}
+                    c = ck.replay([sc])[0]['calls'][0]
+                    got = None
+                    mm = re.search(r'key: b"((?:[^"\\]|\\.)*)"', c.get('debug', ''))
+                    if mm:
+                        try:
+                            got = ast.literal_eval('b"' + mm.group(1) + '"')
+                        except (SyntaxError, ValueError):
+                            got = None
+                    desc = f"opcode 0x{mval(m, H.opcode):02x} extras_length {el} key_length {kl}: the frame's key bytes are {want!r}, the decoded request carries {got!r}"
+                    if got is None:
+                        return None, desc, sc
+                    return (True if got != want else None), desc, sc
+                ck.obligation(f'{tag}: the store is addressed with exactly the key bytes of the frame', pc,
+                              z3.And(kok) if kok else z3.BoolVal(False), {}, on_key, small)
             r = HC.RespView(E, x.data) if x.data is not None else None
             post = x.post[0]
             other = x.post[1]
